@@ -44,6 +44,18 @@ def block(draw, kinds, big_cb):
         k = draw(st.integers(0, len(full) // 64))
         fields.append(refs.compress_coinbase(full, k))
         b["full_cb"] = full
+        if draw(st.integers(0, 7)) == 0:
+            # a coinbase transaction known only by its compressed form, with a count of hashed
+            # bytes far beyond anything that could be spelt out (the bit length in the padding
+            # needs more than 32 bits)
+            cnt = draw(st.sampled_from([2 ** 29 - 64, 2 ** 29, 2 ** 29 + 64, 2 ** 32, 2 ** 35,
+                                        2 ** 48 + 128, 2 ** 60]))
+            mid = draw(st.binary(min_size=32, max_size=32))
+            tail = draw(st.one_of(st.binary(min_size=63, max_size=64),
+                                  st.binary(min_size=1, max_size=130)))
+            fields[-1] = cnt.to_bytes(8, "big") + mid + tail
+            b["full_cb"] = None
+            b["cb_synth"] = [cnt, mid, tail]
     return b
 
 
@@ -63,11 +75,14 @@ def cases(draw, tier):
         blocks = []
         for b in first["blocks"][:draw(st.integers(1, len(first["blocks"])))]:
             nb = {"fields": list(b["fields"]), "full_cb": b["full_cb"]}
+            if b.get("cb_synth"):
+                nb["cb_synth"] = b["cb_synth"]
             if draw(st.booleans()):
                 full = draw(st.binary(min_size=65, max_size=300))
                 kk = draw(st.integers(0, len(full) // 64))
                 nb["fields"][-1] = refs.compress_coinbase(full, kk)
                 nb["full_cb"] = full
+                nb.pop("cb_synth", None)
             if draw(st.booleans()):
                 nb["fields"][-2] = draw(st.binary(max_size=96))
             blocks.append(nb)
@@ -128,7 +143,9 @@ def mm_len(b):
 
 def meta(b, adv):
     m = mm_len(b).to_bytes(2, "big")
-    if adv:
+    if adv and b.get("cb_synth"):
+        m += refs.synthetic_coinbase_hash(*b["cb_synth"])
+    elif adv:
         m += refs.coinbase_hash(b["full_cb"])
     return m
 
